@@ -215,7 +215,15 @@ impl Gen {
                 }
                 Ty::Tup(name, fs)
             }
-            6 => Ty::union(vec![Ty::Int, Ty::Bin]),
+            6 => {
+                if self.chance(1, 2) {
+                    Ty::union(vec![Ty::Int, Ty::Bin])
+                } else {
+                    // `Name[T] | T`: what `(Name[v] | v)` unwraps
+                    let t = if self.chance(2, 3) { Ty::Int } else { Ty::Bin };
+                    Ty::union(vec![Ty::Tup(Some(TUPLE_NAMES[self.rng.usize(4)].to_string()), vec![(None, t.clone())]), t])
+                }
+            }
             7 => Ty::union(vec![Ty::Tup(Some("A".into()), vec![(None, self.gen_data_ty(0))]), Ty::Tup(Some("B".into()), vec![])]),
             _ => Ty::union(vec![self.gen_data_ty(d - 1), Ty::nil()]),
         }
@@ -489,6 +497,34 @@ impl Gen {
         if !is_last && !tail && self.chance(1, 9) && !self.low() {
             if let Some(r) = self.closure_probe(env) {
                 return r;
+            }
+        }
+        if !is_last && !tail && self.chance(1, 14) && !self.low() {
+            // alternation probe: `f = #(N[T] | T) { =(N[v] | v) => [v] }` — a specific alternative before a
+            // catch-all binder of the same name; the call in the next step passes either variant
+            let t = if self.chance(2, 3) { Ty::Int } else { Ty::Bin };
+            let n = TUPLE_NAMES[self.rng.usize(4)].to_string();
+            let p = Ty::union(vec![Ty::Tup(Some(n.clone()), vec![(None, t.clone())]), t.clone()]);
+            let v = self.var_name(env, &[]);
+            let name = self.var_name(env, &[v.clone()]);
+            if v != name && env.lookup(&v).is_none() && env.lookup(&name).is_none() {
+                let pat = Pat::Alt(vec![Pat::Tup(Some(n), vec![(None, Pat::Bind(v.clone()))]), Pat::Bind(v.clone())]);
+                let vt = Ty::union(vec![t.clone(), p.clone()]);
+                let body = Expr {
+                    branches: vec![Branch {
+                        cond: vec![Chain::new(vec![Term::Match(pat)])],
+                        cons: Some(vec![Chain::new(vec![Term::Tuple(
+                            TupName::Anon,
+                            vec![Field::Val(None, Chain::new(vec![Term::Access(Src::Var(v), vec![])]))],
+                        )])]),
+                    }],
+                };
+                let fty = Ty::Fn(Box::new(p.clone()), Box::new(Ty::Tup(None, vec![(None, vt)])));
+                env.bind(&name, fty, St::Definite);
+                self.pending_call = Some(name.clone());
+                self.feat("alternation-probe");
+                self.fresh_start = false;
+                return (Chain { pat: Some(Pat::Bind(name)), terms: vec![Term::Fn { param: p, body: Some(body) }] }, Ty::ok(), vec![], false);
             }
         }
         if !is_last && d > 0 && roll < 2 && self.budget > 3 {
@@ -1833,6 +1869,29 @@ impl Gen {
             used.push((n.clone(), ty.clone()));
             return Pat::Bind(n);
         }
+        // `(Name[v] | v)`: a specific alternative, then a catch-all binder of the same name
+        if comparable && !ty.contains_nil() && variants.len() >= 2 && self.chance(1, 3) {
+            let wrapped: Vec<(String, Ty)> = variants
+                .iter()
+                .filter_map(|x| match x {
+                    Ty::Tup(Some(m), gs) if gs.len() == 1 && gs[0].0.is_none() => Some((m.clone(), gs[0].1.clone())),
+                    _ => None,
+                })
+                .collect();
+            if !wrapped.is_empty() {
+                let (m, _) = wrapped[self.rng.usize(wrapped.len())].clone();
+                let avoid: Vec<String> = used.iter().map(|u| u.0.clone()).collect();
+                let n = self.var_name_for(env, &avoid, None);
+                if !used.iter().any(|u| u.0 == n) {
+                    let ps = vec![Pat::Tup(Some(m), vec![(None, Pat::Bind(n.clone()))]), Pat::Bind(n.clone())];
+                    if let Some((_, t)) = unwrap_or_self(&ps, ty) {
+                        used.push((n, t));
+                        self.feat("pattern-alternation-unwrap-or-self");
+                        return Pat::Alt(ps);
+                    }
+                }
+            }
+        }
         let v = variants[self.rng.usize(variants.len())].clone();
         match roll {
             3..=4 if comparable => {
@@ -2155,8 +2214,29 @@ pub fn pat_binds(pat: &Pat, ty: &Ty) -> Option<Vec<(String, Ty)>> {
             }
             out
         }
-        Pat::Alt(ps) => ps.first().and_then(|p| pat_binds(p, ty)),
+        Pat::Alt(ps) => match unwrap_or_self(ps, ty) {
+            Some(b) => Some(vec![b]),
+            None => ps.first().and_then(|p| pat_binds(p, ty)),
+        },
     }
+}
+
+/// the alternation `(Name[v] | v)` ("unwrap or self": an earlier, specific alternative and a LATER
+/// catch-all binder of the same name) on a scrutinee with a variant `Name[T]`: the variable and its type
+pub fn unwrap_or_self(ps: &[Pat], ty: &Ty) -> Option<(String, Ty)> {
+    let [Pat::Tup(Some(n), fs), Pat::Bind(v)] = ps else { return None };
+    let [(None, Pat::Bind(w))] = fs.as_slice() else { return None };
+    if v != w {
+        return None;
+    }
+    let inner = ty.variants().into_iter().find_map(|x| match x {
+        Ty::Tup(Some(m), gs) if m == *n && gs.len() == 1 && gs[0].0.is_none() => Some(gs[0].1.clone()),
+        _ => None,
+    })?;
+    if ty.has_fn() || ty.contains_nil() {
+        return None;
+    }
+    Some((v.clone(), Ty::union(vec![inner, ty.clone()])))
 }
 
 pub fn pat_has_pin_or_repeat(p: &Pat) -> bool {
